@@ -30,10 +30,10 @@ func init() {
 func runC01(c *engine.Ctx) {
 	r1 := c.Rule("R1", "decoded blocks are keyed by Prefix.Sum of their own bytes (error checked)", 1)
 	r2 := c.Rule("R2", "the block map given to the loader is keyed by each block's own CID", 1)
-	r3 := c.Rule("R3", "a queued item's bytes are blocks[k] for the k recorded as the item's link; other writers store nil", 2)
-	r3b := c.Rule("R3b", "pooled items never carry stale bytes: every Put is preceded by wiping .block", 3)
-	r4 := c.Rule("R4", "store open/write/commit and return of remote bytes only after head.link == requested CID; bytes are that head's block; committer gets the requested link", 5)
-	r5 := c.Rule("R5", "replay guard: verifier installed on going online; VerifyNext errors returned; usable-remote only when verifier nil/done; error reaches the load result", 4)
+	r3 := c.Rule("R3", "a queued item's bytes are blocks[k] for the k recorded as the item's link; other writers store nil", 1)
+	r3b := c.Rule("R3b", "pooled items never carry stale bytes: every Put is preceded by wiping .block", 1)
+	r4 := c.Rule("R4", "store open/write/commit and return of remote bytes only after head.link == requested CID; bytes are that head's block; committer gets the requested link", 2)
+	r5 := c.Rule("R5", "replay guard: verifier installed on going online; VerifyNext errors returned; usable-remote only when verifier nil/done; error reaches the load result", 2)
 	r6 := c.Rule("R6", "responses are routed only to requests sent to the sending peer (C09.R1)", 1)
 
 	checkHashBinding(c, r1)
@@ -42,6 +42,99 @@ func runC01(c *engine.Ctx) {
 	c01VerifyBeforeWrite(c, r4, "")
 	c01Replay(c, r5)
 	c09Rules(c, r6, "")
+	r7 := c.Rule("R7", "verifier step: accepted only if the remote link equals the recorded link and the remote does not claim data the local traversal could not load; then advance (into children iff the remote followed the link); the record stores the link and success flag it is given", 2)
+	c01VerifierStep(c, r7)
+}
+
+func c01VerifierStep(c *engine.Ctx, rule string) {
+	tr := "requestmanager/reconciledloader/traversalrecord"
+	vn := c.P.Func(tr, "Verifier", "VerifyNext")
+	linkF := c.P.Field(tr, "TraversalRecord", "link")
+	succF := c.P.Field(tr, "TraversalRecord", "successful")
+	rec := c.P.Func(tr, "TraversalRecord", "RecordNextStep")
+	if vn == nil || linkF == nil || succF == nil || rec == nil {
+		c.AnchorMissing(rule, "traversalrecord.Verifier.VerifyNext / TraversalRecord{link,successful}.RecordNextStep")
+		return
+	}
+	c.Analysed(engine.FuncName(vn), engine.FuncName(rec))
+	linkP, succP := vn.Params[1], vn.Params[2]
+	// (a) nil return only under Equals(recorded link, remote link)
+	okEq, nNil := true, 0
+	var advance *ssa.Call
+	for _, ci := range engine.Calls(vn) {
+		if ci.Static != nil && ci.Static.Name() == "nextLink" {
+			advance = ci.Value()
+		}
+	}
+	for _, r := range engine.Returns(vn) {
+		if !engine.IsNilConst(engine.ReturnValue(r, 0)) {
+			continue
+		}
+		nNil++
+		eq := false
+		for _, cd := range engine.InstrConds(r) {
+			if call, ok := cd.V.(*ssa.Call); ok && cd.Pol && engine.Resolve(call).Is("github.com/ipfs/go-cid.Cid.Equals") {
+				a, b := call.Call.Args[0], call.Call.Args[1]
+				recA := derivesFromField(a, linkF, 4)
+				recB := derivesFromField(b, linkF, 4)
+				if (recA && engine.Strip(b) == ssa.Value(linkP)) || (recB && engine.Strip(a) == ssa.Value(linkP)) {
+					eq = true
+				}
+			}
+		}
+		if !eq {
+			okEq = false
+		}
+		if advance == nil || !engine.Before(advance, r) {
+			okEq = false
+		}
+	}
+	c.Decide(rule, engine.FuncName(vn)+"|link-equality", vn.Pos(), okEq && nNil > 0,
+		"a step is accepted only when the recorded link equals the remote's link, and the verifier then advances",
+		"the verifier accepts a step without comparing the recorded link with the remote's link (or without advancing): a responder can replay different links over blocks already loaded")
+	// (b) an error path exists exactly for (recorded unsuccessful, remote claims success); advance explores children iff remote followed
+	okFlag := false
+	for _, r := range engine.Returns(vn) {
+		if engine.IsNilConst(engine.ReturnValue(r, 0)) {
+			continue
+		}
+		recUnsucc, remSucc := false, false
+		for _, cd := range engine.InstrConds(r) {
+			if fieldReadOf(cd.V) == succF && !cd.Pol {
+				recUnsucc = true
+			}
+			if engine.Strip(cd.V) == ssa.Value(succP) && cd.Pol {
+				remSucc = true
+			}
+		}
+		if recUnsucc && remSucc {
+			okFlag = true
+		}
+	}
+	okAdv := advance != nil && engine.Strip(advance.Call.Args[len(advance.Call.Args)-1]) == ssa.Value(succP)
+	c.Decide(rule, engine.FuncName(vn)+"|success-flag", vn.Pos(), okFlag && okAdv,
+		"a remote claiming data where the local load failed is refused; the verifier descends into children iff the remote followed the link",
+		fmt.Sprintf("success-flag handling changed (refuses remote-success over local-failure: %v, advance follows the remote's flag: %v)", okFlag, okAdv))
+	// (c) the record stores what it is given at the leaf
+	okRec := false
+	lp, sp := rec.Params[2], rec.Params[3]
+	ls, ss := false, false
+	for _, st := range engine.StoresTo([]*ssa.Function{rec}, linkF) {
+		if al, ok := st.Val.(*ssa.Alloc); ok {
+			for _, r := range *al.Referrers() {
+				if s2, ok := r.(*ssa.Store); ok && s2.Addr == ssa.Value(al) && engine.Strip(s2.Val) == ssa.Value(lp) {
+					ls = true
+				}
+			}
+		}
+	}
+	for _, st := range engine.StoresTo([]*ssa.Function{rec}, succF) {
+		if engine.Strip(st.Val) == ssa.Value(sp) {
+			ss = true
+		}
+	}
+	okRec = ls && ss
+	c.Decide(rule, engine.FuncName(rec)+"|records-arguments", rec.Pos(), okRec, "the record stores the link and success flag of the step it is given", "the traversal record does not store the link / success flag it is given")
 }
 
 // ---- R2
